@@ -51,13 +51,16 @@ def expected_counts(spec, cutoff, mode, max_bond):
                 near = True
             nkeep = int(np.count_nonzero(cum >= T))
             thr = alls[-nkeep] if nkeep > 0 else np.inf
+        if mode in (1, 2) and np.any(np.abs(alls - thr) <= BAND * max(thr, 1e-300)):
+            near = True  # a value sits on the cutoff itself
         if 0 < max_bond < N:
             thr = max(thr, alls[-max_bond])
         if np.isfinite(thr):
+            # thr may now BE one of the values (rank threshold): only OTHER values within the band matter
             d = np.abs(alls - thr)
             close = d <= BAND * max(thr, 1e-300)
             exact = alls == thr
-            if np.any(close & ~exact) or (mode in (1, 2) and np.any(close)):
+            if np.any(close & ~exact):
                 near = True
         return {c: int(np.count_nonzero(s >= thr)) for c, s in spec.items()}, near
     return None, False
